@@ -219,8 +219,28 @@ PyProg(X, Y, neg) ==
       code |-> pre \o SetToSeq(bin \cup un \cup coreok \cup new \cup ord)]
 PyProgs == {PyProg(X, Y, n) : X \in {<<"a", "b">>, <<>>}, Y \in {<<"a", "b">>, <<"b", "c">>, <<"b", "a">>}, n \in BOOLEAN}
 
+\* ---- tails family: the far ends of the differentiable domain (C01 / C02) ---------------------------------
+\* probabilities down to 1e-300 and up to the last double below 1 for the quantile, arguments out to +-8.4 for the
+\* normal cdf, +-19 for exp, 1e-5 for log; bare (both operand forms) and inside the container
+TailProg(kind) ==
+  LET ps == << FOfStr("1e-17"), FOfStr("1e-20"), FOfStr("1e-100"), FOfStr("1e-5"), FOfStr("0.999999"), FOfStr("0.9999999999999999"),
+               FOfStr("1e-3"), FOfStr("0.5") >> \o (IF kind = "D1" THEN << FOfStr("1e-300") >> ELSE << >>)
+      xs == << FOfRat(-42, 5), FOfRat(-8, 1), FOfRat(8, 1), FOfRat(-19, 1), FOfRat(19, 1), FOfStr("1e-5") >>
+      np == Len(ps) nx == Len(xs)
+      leaves == [i \in 1..np |-> Leaf(kind, 1 + (i % 4), ps[i], <<"a", "b">>)] \o [i \in 1..nx |-> Leaf(kind, 1 + (i % 4), xs[i], <<"b", "c">>)]
+                \o [i \in 1..np |-> LeafF(ps[i])]
+      nl == np + nx + np
+      wraps == [i \in 1..(np + nx) |-> [op |-> "wrap", a |-> i]]
+      un(op, a, f) == [op |-> op, a |-> a, fa |-> f, p |-> FOfRat(3, 2)]
+      code == {un("incdf", a, f) : a \in (1..np) \cup ((np + nx + 1)..nl) \cup ((nl + 1)..(nl + np)), f \in {"r", "v"}}
+              \cup {un("ncdf", a, f) : a \in {np + 1, np + 2, np + 3, nl + np + 1, nl + np + 2}, f \in {"r", "v"}}
+              \cup {un("exp", a, f) : a \in {np + 4, np + 5}, f \in {"r", "v"}}
+              \cup {un("log", a, f) : a \in {np + 6, 4}, f \in {"r", "v"}}
+  IN [key |-> "tails/" \o kind, leaves |-> leaves, code |-> wraps \o SetToSeq(code)]
+TailProgs == {TailProg("D1"), TailProg("D2")}
+
 Family == IOEnv.FAMILY
-Out == CASE Family = "layout" -> LayoutProgs [] Family = "read" -> ReadProgs [] Family = "kinds" -> KindProgs [] Family = "order" -> OrderProgs \cup {SumCritProg("D1"), SumCritProg("D2")} [] Family = "py" -> PyProgs
+Out == CASE Family = "layout" -> LayoutProgs [] Family = "read" -> ReadProgs [] Family = "kinds" -> KindProgs [] Family = "order" -> OrderProgs \cup {SumCritProg("D1"), SumCritProg("D2")} [] Family = "py" -> PyProgs [] Family = "tails" -> TailProgs
 ASSUME ndJsonSerialize(IOEnv.OUT, SetToSeq(Out))
 ASSUME PrintT(<<"GEN", Family, Cardinality(Out)>>)
 VARIABLE x
